@@ -223,7 +223,7 @@ theorem createPool_bridge {s s' : State} {u : Nat} {kind : Kind} {liq : Coins}
 Model/Gamm (`tied`), keeps the records `PoolOK`, and it leaves the pool-math contract (`clean`) EXACTLY when one of
 its balancer `SwapOutAmtGivenIn` calls answered with the entire out-reserve. -/
 theorem step_bridge (cfg : Cfg) (hcfg : CfgOK cfg) {s s' : State} {m : Msg} (h : step s m = some s')
-    (hok : PoolsOK s) (hn : m.namesOK) (ht : ∀ c ∈ calls s m, c.tied cfg = true) :
+    (hok : PoolsOK s) (hn : m.namesOK) (ht : ∀ c ∈ calls s m, c.tiedLP cfg = true) :
     PoolsOK s' ∧ s'.clean = (s.clean && (calls s m).all (fun c => !c.entireReserve)) ∧
     ∀ c ∈ calls s m, c.recOK := by
   cases m with
@@ -240,7 +240,7 @@ theorem step_bridge (cfg : Cfg) (hcfg : CfgOK cfg) {s s' : State} {m : Msg} (h :
       simp only [calls, hp, hnd]
     obtain ⟨r1, r2⟩ := joinPool_bridge cfg h hp hok (fun nd hnd' => by
       rw [hnd] at hnd'; injection hnd' with hnd'; subst hnd'
-      exact ht _ (by rw [hcalls]; exact List.mem_singleton.mpr rfl))
+      exact ht (.joinNoSwap p id needed mt) (by rw [hcalls]; exact List.mem_singleton.mpr rfl))
     exact ⟨r1, by rw [hcalls, r2]; simp [Call.entireReserve], fun c hc => by
       rw [hcalls] at hc; simp only [List.mem_singleton] at hc; rw [hc]; trivial⟩
   | joinSwapExternAmountIn u id d a ms mt =>
@@ -264,7 +264,7 @@ theorem step_bridge (cfg : Cfg) (hcfg : CfgOK cfg) {s s' : State} {m : Msg} (h :
     obtain ⟨p, hp⟩ := exitPool_pool h
     have hcalls : calls s (.exitPool u id sh mins mt) = [.exit p id sh mt] := by
       simp only [calls, poolCall_some hp]
-    obtain ⟨r1, r2⟩ := exitPool_bridge cfg h hp hok (ht _ (by rw [hcalls]; exact List.mem_singleton.mpr rfl))
+    obtain ⟨r1, r2⟩ := exitPool_bridge cfg h hp hok (ht (.exit p id sh mt) (by rw [hcalls]; exact List.mem_singleton.mpr rfl))
     exact ⟨r1, by rw [hcalls, r2]; simp [Call.entireReserve], fun c hc => by
       rw [hcalls] at hc; simp only [List.mem_singleton] at hc; rw [hc]; trivial⟩
   | exitSwapShareAmountIn u id d sh mn mt ms =>
@@ -279,7 +279,7 @@ theorem step_bridge (cfg : Cfg) (hcfg : CfgOK cfg) {s s' : State} {m : Msg} (h :
     have hcalls : calls s (.exitSwapShareAmountIn u id d sh mn mt ms) =
         [.exit p id sh mt] ++ exitSwapCalls s1 u id d ec ms := by
       simp only [calls, poolCall_some hp, h1]
-    obtain ⟨a1, a2⟩ := exitPool_bridge cfg h1 hp hok (ht _ (by rw [hcalls]; simp))
+    obtain ⟨a1, a2⟩ := exitPool_bridge cfg h1 hp hok (ht (.exit p id sh mt) (by rw [hcalls]; simp))
     obtain ⟨b1, b2, b3⟩ := exitSwapLoop_bridge ec ms h2 a1
     refine ⟨b1, ?_, ?_⟩
     · rw [hcalls, List.all_append, b2, a2]
@@ -298,7 +298,7 @@ theorem step_bridge (cfg : Cfg) (hcfg : CfgOK cfg) {s s' : State} {m : Msg} (h :
     obtain ⟨p, hp, _⟩ := h0
     have hcalls : calls s (.exitSwapExternAmountOut u id d a mt) = [.exitSwapOut p id d a mt] := by
       simp only [calls, poolCall_some hp]
-    obtain ⟨r1, r2⟩ := exitSwapExternAmountOut_bridge cfg hcfg h hp hok (ht _ (by rw [hcalls]; exact List.mem_singleton.mpr rfl))
+    obtain ⟨r1, r2⟩ := exitSwapExternAmountOut_bridge cfg hcfg h hp hok (ht (.exitSwapOut p id d a mt) (by rw [hcalls]; exact List.mem_singleton.mpr rfl))
     exact ⟨r1, by rw [hcalls, r2]; simp [Call.entireReserve], fun c hc => by
       rw [hcalls] at hc; simp only [List.mem_singleton] at hc; rw [hc]; trivial⟩
   | swapExactAmountIn u d a mn hops =>
@@ -350,6 +350,19 @@ def mathIsGamm (cfg : Cfg) : State → List Op → Bool
   | _, [] => true
   | s, o :: os => (opCalls s o).all (Call.tied cfg) && mathIsGamm cfg (applyOp s o) os
 
+/-- the weaker tie that the ledger theorems need (`Call.tiedLP`). -/
+def lpMathIsGamm (cfg : Cfg) : State → List Op → Bool
+  | _, [] => true
+  | s, o :: os => (opCalls s o).all (Call.tiedLP cfg) && lpMathIsGamm cfg (applyOp s o) os
+
+theorem lpMathIsGamm_of_mathIsGamm (cfg : Cfg) : ∀ (ops : List Op) (s : State), mathIsGamm cfg s ops = true →
+    lpMathIsGamm cfg s ops = true
+  | [], _, _ => rfl
+  | o :: os, s, h => by
+    simp only [mathIsGamm, Bool.and_eq_true, List.all_eq_true] at h
+    simp only [lpMathIsGamm, Bool.and_eq_true, List.all_eq_true]
+    exact ⟨fun c hc => Call.tiedLP_of_tied (h.1 c hc), lpMathIsGamm_of_mathIsGamm cfg os _ h.2⟩
+
 /-- the F13 events of a history: the balancer `SwapOutAmtGivenIn` calls of SUCCESSFUL messages that answered with the
 entire out-reserve. -/
 def entireReserveSwaps : State → List Op → List Call
@@ -373,7 +386,7 @@ theorem all_not_eq_filter_isEmpty (l : List Call) :
     | false => simpa using ih
 
 theorem applyOp_bridge (cfg : Cfg) (hcfg : CfgOK cfg) (s : State) (o : Op) (hok : PoolsOK s)
-    (hn : ∀ m, o = .msg m → m.namesOK) (ht : (opCalls s o).all (Call.tied cfg) = true) :
+    (hn : ∀ m, o = .msg m → m.namesOK) (ht : (opCalls s o).all (Call.tiedLP cfg) = true) :
     PoolsOK (applyOp s o) ∧
     (applyOp s o).clean = (s.clean && (entireReserveSwaps s [o]).isEmpty) := by
   cases o with
@@ -406,11 +419,11 @@ theorem entireReserveSwaps_cons (s : State) (o : Op) (os : List Op) :
 /-- FULL. Over ANY history whose pool-math results are those of Model/Gamm: the final state is inside the pool-math
 contract iff no F13 event happened; all records keep distinct names and positive reserves. -/
 theorem runOps_bridge (cfg : Cfg) (hcfg : CfgOK cfg) : ∀ (ops : List Op) (s : State), PoolsOK s → OpsNamesOK ops →
-    mathIsGamm cfg s ops = true →
+    lpMathIsGamm cfg s ops = true →
     PoolsOK (runOps s ops) ∧ (runOps s ops).clean = (s.clean && (entireReserveSwaps s ops).isEmpty)
   | [], s, hok, _, _ => ⟨hok, by simp [runOps, entireReserveSwaps]⟩
   | o :: os, s, hok, hn, hm => by
-    simp only [mathIsGamm, Bool.and_eq_true] at hm
+    simp only [lpMathIsGamm, Bool.and_eq_true] at hm
     obtain ⟨a1, a2⟩ := applyOp_bridge cfg hcfg s o hok (fun m hm' => hn m (by rw [hm']; exact List.mem_cons_self ..)) hm.1
     obtain ⟨b1, b2⟩ := runOps_bridge cfg hcfg os (applyOp s o) a1 (fun m hm' => hn m (List.mem_cons_of_mem _ hm')) hm.2
     refine ⟨b1, ?_⟩
@@ -425,7 +438,11 @@ theorem runOps_events (cfg : Cfg) (hcfg : CfgOK cfg) : ∀ (ops : List Op) (s : 
   | [], s, _, _, _, c, hc => by simp [entireReserveSwaps] at hc
   | o :: os, s, hok, hn, hm, c, hc => by
     simp only [mathIsGamm, Bool.and_eq_true] at hm
-    obtain ⟨a1, _⟩ := applyOp_bridge cfg hcfg s o hok (fun m hm' => hn m (by rw [hm']; exact List.mem_cons_self ..)) hm.1
+    have hlp : (opCalls s o).all (Call.tiedLP cfg) = true := by
+      have := hm.1
+      rw [List.all_eq_true] at this ⊢
+      exact fun c hc => Call.tiedLP_of_tied (this c hc)
+    obtain ⟨a1, _⟩ := applyOp_bridge cfg hcfg s o hok (fun m hm' => hn m (by rw [hm']; exact List.mem_cons_self ..)) hlp
     simp only [entireReserveSwaps, List.mem_append] at hc
     rcases hc with hc | hc
     · cases o with
@@ -438,11 +455,36 @@ theorem runOps_events (cfg : Cfg) (hcfg : CfgOK cfg) : ∀ (ops : List Op) (s : 
           simp only [Option.isSome_some, if_true, List.mem_filter] at hc
           have ht := hm.1
           simp only [opCalls, List.all_eq_true] at ht
-          obtain ⟨_, _, r3⟩ := step_bridge cfg hcfg hs hok (hn m (List.mem_cons_self ..)) ht
+          obtain ⟨_, _, r3⟩ := step_bridge cfg hcfg hs hok (hn m (List.mem_cons_self ..))
+            (fun c hc => Call.tiedLP_of_tied (ht c hc))
           exact ⟨ht c hc.1, r3 c hc.1, hc.2⟩
       | fund u n a => simp at hc
       | setParams p => simp at hc
     · exact runOps_events cfg hcfg os (applyOp s o) a1 (fun m hm' => hn m (List.mem_cons_of_mem _ hm')) hm.2 c hc
+
+/-! ### prefixes -/
+
+theorem runOps_append : ∀ (a b : List Op) (s : State), runOps s (a ++ b) = runOps (runOps s a) b
+  | [], _, _ => rfl
+  | o :: os, b, s => by simp only [List.cons_append, runOps]; exact runOps_append os b _
+
+theorem lpMathIsGamm_append (cfg : Cfg) : ∀ (a b : List Op) (s : State),
+    lpMathIsGamm cfg s (a ++ b) = (lpMathIsGamm cfg s a && lpMathIsGamm cfg (runOps s a) b)
+  | [], _, _ => by simp [lpMathIsGamm, runOps]
+  | o :: os, b, s => by
+    simp only [List.cons_append, lpMathIsGamm, runOps, lpMathIsGamm_append cfg os b, Bool.and_assoc]
+
+theorem mathIsGamm_append (cfg : Cfg) : ∀ (a b : List Op) (s : State),
+    mathIsGamm cfg s (a ++ b) = (mathIsGamm cfg s a && mathIsGamm cfg (runOps s a) b)
+  | [], _, _ => by simp [mathIsGamm, runOps]
+  | o :: os, b, s => by
+    simp only [List.cons_append, mathIsGamm, runOps, mathIsGamm_append cfg os b, Bool.and_assoc]
+
+theorem entireReserveSwaps_append : ∀ (a b : List Op) (s : State),
+    entireReserveSwaps s (a ++ b) = entireReserveSwaps s a ++ entireReserveSwaps (runOps s a) b
+  | [], _, _ => by simp [entireReserveSwaps, runOps]
+  | o :: os, b, s => by
+    simp only [List.cons_append, entireReserveSwaps, runOps, entireReserveSwaps_append os b, List.append_assoc]
 
 theorem init_PoolsOK (n : Nat) : PoolsOK { nextPoolId := n } := by
   intro id p h; simp [getPool] at h
